@@ -55,7 +55,8 @@ ORDERS = [tuple(p) for k in range(0, 6) for p in itertools.permutations(range(5)
 
 # orders that also name failed-block classes (any Block subclass may be listed): indices 5.. of TYPES_ALL
 TYPES_ALL = TYPES + [ParsingFailedBlock, DuplicateFieldKeyBlock, DuplicateBlockKeyBlock]
-LONG_ORDERS = [(0, 1, 2, 3, 4, 5), (0, 1, 2, 3, 4, 7), (5, 2), (6, 5, 2, 7), (2, 7, 6), (7,), (0, 1, 2, 3, 4, 5, 6, 7)]
+LONG_ORDERS = [(0, 1, 2, 3, 4, 5), (0, 1, 2, 3, 4, 7), (5, 2), (6, 5, 2, 7), (2, 7, 6), (7,), (0, 1, 2, 3, 4, 5, 6, 7),
+               (2, 0, 1, 2, 3, 4), (0, 0, 2), (4, 2, 4, 0)]  # (the last three name a type twice: its first position counts)
 MID = ["Ea", "Ea2", "Eb", "IC", "Sa", "P"]  # sub-universe for libraries of middling length (5; thorough also 6 and 7)
 MID_ORDERS = [0, 3, 40, 200, 325]
 
@@ -212,6 +213,8 @@ def run_special(acc):
         lambda: [e("f", 0), e("e\u0301", 1), e("\xe9", 2), e("e", 3), e("E", 4), e("\u017f", 5), e("s", 6), e("\xdf", 7), e("ss", 8)],
         lambda: [e("\u0130", 0), e("i", 1), e("I", 2), e("\u0131", 3), e("i\u0307", 4)],
         same_object_above_several,
+        # keys that compare only with their own kind (ints among entries, str elsewhere): with Entry listed, keys of different types never meet
+        lambda: [Entry("article", 3, [], start_line=0, raw="@article{3}#0"), twin(), Entry("article", 1, [], start_line=1, raw="@article{1}#1"), String("b", "v", start_line=2, raw="@string{b}#2"), ctwin(), String("a", "v", start_line=3, raw="@string{a}#3")],
         # keys holding characters with a meaning in %-formats, templates and regular expressions
         lambda: [e("rate50%", 0), ctwin(), e("k%d", 1), e("a%b", 2), twin(), e("%s", 3), e("{0}", 4), e("a.b", 5), e("a+b", 6), e("a|b", 7), e("\\1", 8)],
         subclass_blocks,
@@ -224,6 +227,8 @@ def run_special(acc):
                 types = tuple(TYPES[i] for i in order)
                 lib = Library(mk())
                 inp = list(lib.blocks)
+                if any(isinstance(getattr(b, "key", ""), int) for b in inp) and Entry not in types:
+                    continue  # (int keys and str keys would share a rank: not comparable by nature)
                 case = {"special_library": n, "order": [TNAMES[i] for i in order], "comments_on_top": on_top}
                 acc.trace()
                 acc.case(nontrivial_key=("special", n, order, on_top))
